@@ -163,7 +163,18 @@ func buildC11Table(rng *gen.RNG) []c11Op {
 		}})
 		alone("IsKnownSuite+SuiteConfigFromRaws("+n+")", func() string { return fmt.Sprintf("%v %+v", otp.IsKnownSuite(n), otp.SuiteConfigFromRaws(n)) })
 	}
-	alone("ListSuites", func() string { l := otp.ListSuites(); sort.Strings(l); return strings.Join(l, ",") })
+	alone("ListSuites", func() string {
+		l := otp.ListSuites()
+		res := append([]string(nil), l...)
+		sort.Strings(res)
+		// the returned list is the caller's: scribble over it and append to it
+		for i := range l {
+			l[i] = "scribbled"
+		}
+		l = append(l, "appended-by-caller")
+		_ = l
+		return strings.Join(res, ",")
+	})
 	for i := 0; i < 8; i++ {
 		s := secrets[i]
 		text := s.texts[2]
